@@ -71,6 +71,7 @@ def zCrit : Rat := 232634787404 / 100000000000
 def handleFinite (args : List String) : String :=
   match args with
   | ["ACCO", o, st] => s!"acc={showRat ((parseOsuState st).accuracy (parseOrigin o))}"
+  | ["ACCW", st] => s!"acc={showRat (parseOsuState st).accuracyStableWrapped}"
   | ["ACCN", o, st] => s!"acc={showRat ((parseOsuState st).noComboAccuracy (parseOrigin o))}"
   | ["ACCT", st] =>
     match natList st with
